@@ -144,7 +144,7 @@ def c05_jobs(tier):
         return [lists_job('list', 'list-n7', 7), lists_job('list', 'list-asan-n6', 6, san='asan'),
                 lists_job('slist', 'slist-n7', 7), lists_job('slist', 'slist-asan-n6', 6, san='asan'),
                 lists_job('que', 'que-n6-siz4-9', 6, 4, 9, 2), lists_job('que', 'que-n5-siz1-3-3keys', 5, 1, 3, 3),
-                lists_job('que', 'que-n11-siz8-pool-growth', 11, 8, 0, 1),
+                lists_job('que', 'que-n18-siz8-pool-growth', 18, 8, 0, 1),  # 17+ nodes: the pool table reaches its third size step
                 lists_job('que', 'que-asan-n5-siz4-9', 5, 4, 9, 2, san='asan'), lists_job('que', 'que-asan-n10-pool-growth', 10, 3, 0, 1, san='asan')]
     D = 2400
     return [lists_job('list', 'list-n9', 9, deadline=D), lists_job('list', 'list-asan-n8', 8, san='asan', deadline=D),
@@ -213,7 +213,7 @@ def c07_jobs(tier):
             seq_job('vec', 'oom-vec-growth-8-16', 9 if q else 10, 2, keys=1 if q else 2, memcap=16, faults=1, deadline=D),
             seq_job('buf', 'oom-buf-siz1-3', 3 if q else 5, 1, 3, mem0=3 if q else 5, memcap=5 if q else 7, faults=1, deadline=D),
             lists_job('que', 'oom-que-siz4-9', 4 if q else 6, 4, 9, 2, faults=1, deadline=D),
-            lists_job('que', 'oom-que-pool-growth', 11 if q else 18, 3, 7, 1, faults=1, deadline=D),
+            lists_job('que', 'oom-que-pool-growth', 18, 3, 7, 1, faults=1, deadline=D),
             str_job('rich', 'oom-str-rich', 4 if q else 6, 4, faults=1, deadline=D),
             str_job('length', 'oom-str-length', 40 if q else 72, faults=1, deadline=D),
             seq_job('vec', 'oom-vec-asan', 3 if q else 4, 3, 1, san='asan', faults=1, deadline=D),
